@@ -139,6 +139,41 @@ def hist_unicode_cases(depths=(1, 2, 3)):
     return out
 
 
+RX_PATTERNS = ["'a'", "''", "'/'", "'a/b'", "'[/]'", "'\\\\/'", "'\\n'", "'a\\u2028b'", "'(a)|b'", "'['", "'a{2,1}'", "undefined", "null", "5",
+               "/x/", "/x/g", "/x/gi", "/x\\/y/", "new RegExp('z', 'y')", "{toString: function () { return 'ts' }}"]
+RX_FLAGS = [None, "''", "'g'", "'gi'", "'ig'", "'yigm'", "'gg'", "'x'", "'G'", "'g '", "undefined", "null", "'s'", "'u'", "'dgimsuy'"]
+RX_OBS = "[r.source, r.flags, r.global, r.ignoreCase, r.multiline, r.sticky, r.unicode, r.dotAll, r.lastIndex, String(r), r.toString(), r === P].join('|')"
+
+
+def regex_object_cases():
+    out = []
+
+    def add(src):
+        src = "var r0; try { r0 = (function () { %s })() } catch (e) { r0 = 'throw:' + e.name } r0" % src
+        out.append(("O|" + src, {"src": src, "tl": TL, "m": ["ctor"], "nt": True}))
+    for p in RX_PATTERNS:
+        for f in RX_FLAGS:
+            args = p if f is None else p + ", " + f
+            add("var P = %s; var r = new RegExp(%s); return %s" % (p, args.replace(p, "P", 1), RX_OBS))
+    for lit in ["/a/", "/a/g", "/a/yigm", "/[/]/", "/\\//", "/(?:)/", "/a|b/s", "/\\d+/u"]:
+        add("var P = %s; var r = P; return %s" % (lit, RX_OBS))
+        for call in ["r.test()", "r.exec()", "r.test(undefined)", "r.test(null)", "r.test(5)", "r.exec({toString: function () { return 'a' }})", "r.test('a', 'b')"]:
+            add("var r = %s; var m = %s; return [m === null ? 'null' : (typeof m === 'object' ? m[0] + '@' + m.index : m), r.lastIndex].join('|')" % (lit, call))
+        for w in ["r.zz = 1; return [r.zz, Object.keys(r).join(), r.hasOwnProperty('zz'), r.hasOwnProperty('lastIndex'), 'lastIndex' in r, 'zz' in r].join('|')",
+                  "var t; try { r.source = 'q'; t = 'no throw' } catch (e) { t = e.name } return [t, r.source].join('|')",
+                  "var t; try { r.global = true; t = 'no throw' } catch (e) { t = e.name } return [t, r.global, r.flags].join('|')",
+                  "var t; try { r.flags = 'i'; t = 'no throw' } catch (e) { t = e.name } return [t, r.flags].join('|')",
+                  "r.lastIndex = 2; return [r.lastIndex, typeof r.lastIndex].join('|')", "r.lastIndex = 'x'; return [r.lastIndex, r.test('a')].join('|')",
+                  "return [r.constructor === RegExp, r instanceof RegExp, typeof r, typeof r.exec, typeof r.hasOwnProperty, r.nope].join('|')",
+                  "return [Object.keys(r).join(), JSON.stringify(r), r == r, r == %s].join('|')" % lit]:
+            add("var r = %s; %s" % (lit, w))
+    for s in ["'abc'.match()", "'abc'.match(undefined)", "'abc'.match(null)", "'a5c'.match(5)", "'abc'.match('b')", "'a.c'.match('.')", "'abc'.search()",
+              "'abc'.search(undefined)", "'a.c'.search('.')", "'abc'.search('c')", "'abc'.match('[')", "'abc'.search('(')", "'abc'.replace(undefined, 'x')",
+              "'xundefinedx'.replace(undefined, '-')", "'abc'.split(undefined)", "'aundefinedb'.split(undefined)", "'abc'.match({toString: function () { return 'b' }})"]:
+        add("var m = %s; return m === null ? 'null' : (typeof m === 'object' ? [m.length, m[0], m.index].join('|') : m)" % s)
+    return out
+
+
 # ------------------------------------------------------------------------------------- string methods
 
 def gen_patterns():
@@ -464,6 +499,12 @@ def core_spaces():
                H_RULE + "new RegExp, every depth-4 history over the 8-operation core (exec/test x s1/s2, lastIndex = 0 1 2 5)",
                "6 flags x 8^4 programs x 6 patterns"),
     ]
+    sp.append(Space("c20_regex_object", RUN, regex_object_cases, oracle="table", batch=200, bound="%d x %d + literals" % (len(RX_PATTERNS), len(RX_FLAGS)),
+                    rule="new RegExp(pattern, flags) for %d pattern arguments (strings that need escaping, invalid patterns, undefined / null / "
+                         "numbers, regex objects, objects) x %d flag arguments (valid in any order, duplicate, unknown, undefined): source, "
+                         "flags, every flag property, lastIndex, both renderings; 8 literals: the same, test / exec with missing and odd "
+                         "arguments, added properties, assignment to the read-only accessors, lastIndex writes, inherited members; match / "
+                         "search / replace / split with undefined, null, number, string and invalid patterns" % (len(RX_PATTERNS), len(RX_FLAGS))))
     sp.append(_space("c20_hist_unicode", hist_unicode_cases,
                      H_RULE + "subjects 'a\\u{1F600}' and '\\u{1F600}b', 8 patterns x flags u gu yu giu, every history of depth 1..2 over exec / "
                      "test / lastIndex = 0..4 / read, and depth 3 of the form preset, search, anything", "32 x (9 + 81 + 5 x 3 x 9)"))
